@@ -17,7 +17,7 @@ FIELDS = ["psi", "mu", "supercurrent", "normal_current", "induced_vector_potenti
 
 
 def options(**kw):
-    base = dict(solve_time=1.0, dt_init=1e-3, dt_max=0.05, adaptive=False, save_every=100, progress_interval=0,
+    base = dict(solve_time=1.0, dt_init=1e-3, dt_max=0.05, adaptive=False, save_every=100, progress_interval=10**9,
                 pause_on_interrupt=False, field_units="mT", current_units="uA", output_file=None)
     base.update(kw)
     return tdgl.SolverOptions(**base)
